@@ -70,8 +70,8 @@ impl Case for EnvCase {
 
 pub fn env_strategy() -> BoxedStrategy<EnvCase> {
     (
-        any::<u64>(),
-        any::<u64>(),
+        u64_edges(),
+        u64_edges(),
         "[a-z0-9-]{1,12}",
         "[a-z0-9]{1,16}",
         proptest::option::of(any::<u32>()),
